@@ -918,7 +918,7 @@ func runNumStr(x *h.Ctx, c NumStrCase) string {
 		n = math.Copysign(0, -1)
 		src = "(-0)"
 	}
-	prog := fmt.Sprintf("BEGIN { CONVFMT = %s; OFMT = %s; x = %s; s = x \"\"; a[x] = 1; for (k in a) sub_ = k; printf \"%%s|%%s|\", s, sub_; print x }", awk.QuoteStr(c.CONVFMT), awk.QuoteStr(c.OFMT), src)
+	prog := fmt.Sprintf("BEGIN { CONVFMT = %s; OFMT = %s; x = %s; s = x \"\"; a[x] = 1; for (k in a) sub_ = k; b[%s] = 1; for (k in b) lit_ = k; c[%s, 7] = 1; for (k in c) mul_ = k; sub(SUBSEP \"7$\", \"\", mul_); printf \"%%s|%%s|%%s|%%s|%%d|\", s, sub_, lit_, mul_, ((%s) in a) + ((%s) in b); print x }", awk.QuoteStr(c.CONVFMT), awk.QuoteStr(c.OFMT), src, src, src, src, src)
 	p, err := parser.ParseProgram([]byte(prog), nil)
 	if err != nil {
 		return "harness: " + err.Error() + "\n" + prog
@@ -935,11 +935,18 @@ func runNumStr(x *h.Ctx, c NumStrCase) string {
 		return fmt.Sprintf("run-time error: %v\n%s", err, prog)
 	}
 	parts := strings.Split(strings.TrimSuffix(out.String(), "\n"), "|")
-	if len(parts) == 3 && c.OutMode != "" && len(parts[2]) >= 2 && strings.HasPrefix(parts[2], "\"") && strings.HasSuffix(parts[2], "\"") {
+	if len(parts) != 6 {
+		return fmt.Sprintf("harness: unexpected output %q", out.String())
+	}
+	// the same number written as a literal subscript, as the first part of a two-part subscript and as the left side
+	// of "in" must give the key the variable gives
+	litKey, mulKey, inCount := parts[2], parts[3], parts[4]
+	parts = []string{parts[0], parts[1], parts[5]}
+	if len(parts[2]) >= 2 && c.OutMode != "" && strings.HasPrefix(parts[2], "\"") && strings.HasSuffix(parts[2], "\"") {
 		parts[2] = strings.ReplaceAll(parts[2][1:len(parts[2])-1], "\"\"", "\"") // a quoted CSV field
 	}
-	if len(parts) != 3 {
-		return fmt.Sprintf("harness: unexpected output %q", out.String())
+	if !(math.IsNaN(n) || math.IsInf(n, 0)) && (litKey != parts[1] || mulKey != parts[1] || inCount != "2") {
+		return fmt.Sprintf("a number used as a subscript gives different keys depending on how it is written (CONVFMT %q)\nprogram: %s\nthrough a variable: %q  literal: %q  first of two parts: %q  found by 'in' (of 2): %s", c.CONVFMT, prog, parts[1], litKey, mulKey, inCount)
 	}
 	if math.IsNaN(n) || math.IsInf(n, 0) {
 		for _, p := range parts {
